@@ -2,7 +2,7 @@
 import itertools, random, copy
 from .model import Field, Variant, Program, spell_param, ISIZE_MIN
 
-KANI_TYS = ["u8", "f32", "bool", "i8", "u16"]
+KANI_TYS = ["u8", "f32", "crate::m::Adv", "bool", "i8", "u16"]
 NAMES = ["a", "b", "c", "d", "e", "f"]
 # hostile-but-legal identifiers that coincide with names the generated code uses
 HOSTILE = ["other", "state", "f", "builder", "source", "_0", "v", "r#fn"]
@@ -162,8 +162,8 @@ def canaries_eq(programs):
 
 # ---------------------------------------------------------------------------------
 # C03 / C04
-ORD_TYS = ["u8", "i8", "bool", "u16"]
-PORD_TYS = ["crate::m::Inc", "u8", "i8", "u16"]
+ORD_TYS = ["u8", "crate::m::Adv", "i8", "bool", "u16"]
+PORD_TYS = ["crate::m::Inc", "u8", "crate::m::Adv", "i8", "u16"]
 
 
 def ord_field(name, a, rank, md, carrier, form, generics, i):
@@ -331,7 +331,7 @@ def canaries_ord(programs):
 
 # ---------------------------------------------------------------------------------
 # C05
-HASH_TYS = ["u8", "u16", "bool", "crate::m::K", "u32"]
+HASH_TYS = ["u8", "u16", "crate::m::Adv", "bool", "crate::m::K", "u32"]
 HASH_METHODS = ["crate::m::hash_a", "crate::m::hash_b"]
 
 
@@ -433,7 +433,7 @@ def clone_program(pid, kind, name, variants, generics, copy, note, form):
         traits = traits + ["PartialEq"]
         note += " +PartialEq"
     P = Program(pid, kind, name, variants, traits, generics=sorted(generics),
-                inst={g: "crate::m::Ctr<%s>" % g[1:] for g in generics}, focus={"Clone"}, note=note, clone={"copy": copy})
+                inst={g: ("crate::m::Adv" if (int(g[1:]) + form) % 3 == 2 else "crate::m::Ctr<%s>" % g[1:]) for g in generics}, focus={"Clone"}, note=note, clone={"copy": copy})
     if copy:
         P.tags["verus_also"] = ["Copy"]
     return P
@@ -537,7 +537,8 @@ DEF_LITS = [("u8",            "7",           "7u8",                         True
             ]
 DEF_LITS = [l for l in DEF_LITS if l[2] is not None and not (l[0] == "f64" and l[1] == "2.5f32")]
 DEF_NONE = [("u8", "0u8", True), ("bool", "false", True), ("u32", "0u32", True), ("char", "'\\0'", True), ("i32", "0i32", True),
-            ("Option<u8>", "None", False), ("f32", "0.0f32", False), ("u16", "0u16", True), ("String", "String::new()", False)]
+            ("Option<u8>", "None", False), ("f32", "0.0f32", False), ("u16", "0u16", True), ("String", "String::new()", False),
+            ("crate::m::Adv", "crate::m::Adv(1)", False), ("crate::m::Adv", "crate::m::Adv(1)", False)]
 
 
 def def_field(name, k, form, idx):
@@ -647,6 +648,16 @@ def _c08(tier, seed):
             vs = [Variant("V0", vkind, [Field(n, t, default={"expected": "unused"}) for t, n in fields])]
             out.append(Program(c.pid(), "enum", "E", vs, [tl % src], focus={"Default"}, note="single-variant enum with type-level expression `%s`" % (tl % src),
                                default={"new": "new" in tl, "type_expected": exp}))
+    # unions whose designated field type has a non-zero Default and wrong inherent methods
+    for nf in (1, 2):
+        for mark in range(nf):
+            form += 1
+            fs = [Field(NAMES[i], "crate::m::Adv" if i == mark else "u8", attrs=(["Default"] if (i == mark and nf > 1) else []),
+                        default={"marked": i == mark, "expected": "crate::m::Adv(1)" if i == mark else "0u8"}) for i in range(nf)]
+            P = Program(c.pid(), "union", "U", [Variant(None, "named", fs)], def_traits(False, form), focus={"Default"},
+                        note="union %d fields default=%s of type Adv (Default is not all-zero)" % (nf, NAMES[mark]), default={"new": False})
+            P.tags["mk"] = "// Default takes no inputs"
+            out.append(P)
     # unions: marked or only field
     for nf in (1, 2, 3):
         for mark in range(nf):
@@ -1503,10 +1514,26 @@ def c15_structured():
     return out
 
 
+def c15_packed():
+    """packed structs with an address-sensitive custom method, with and without Copy educed next to
+    PartialEq: the generated eq must hand the method the fields' own storage either way"""
+    out = []
+    for k, traits in enumerate((["PartialEq"], ["PartialEq", "Clone", "Copy"], ["Clone", "Copy", "PartialEq"], ["PartialEq", "Clone"])):
+        for shape in ("named", "tuple"):
+            fs = [Field("a" if shape == "named" else None, "u8", attrs=["PartialEq(method = crate::m::eq_addr)"], eq={"method": "crate::m::eq_addr"}, clone={}),
+                  Field("b" if shape == "named" else None, "u8", eq={}, clone={})]
+            P = Program("pk%d%s" % (k, shape[0]), "struct", "S", [Variant(None, shape, fs)], traits, focus={"PartialEq"}, repr_="packed",
+                        note="C15 packed struct %s with an address-sensitive eq method, traits=%s" % (shape, traits), clone={"copy": "Copy" in traits})
+            P.tags["prop"] = "C15"
+            P.tags["no_verus"] = "address-sensitive method: decided by Kani (aliased and distinct operands)"
+            out.append(P)
+    return out
+
+
 def c15(tier, seed):
     rnd = random.Random(1000 + seed)
     c = Counter()
-    out = c15_structured()
+    out = c15_structured() + c15_packed()
     ALL = ["Debug", "PartialEq", "Eq", "PartialOrd", "Ord", "Hash", "Clone", "Default", "Into(u16)"]
     nprog = 24 if tier == "quick" else 360
     for pi in range(nprog):
@@ -1859,6 +1886,13 @@ def wide(prop):
                     out.append(Program(pid(), "struct", "S", [Variant(None, shape, fields)], [dbg_type_meta(tn, nf, k[0]) or "Debug"], generics=generics,
                                        inst={g: "u8" for g in generics}, focus={"Debug"},
                                        note="method/map struct %s name=%s named_field=%s fields=%s" % (shape, tn, nf, "".join(assign)), debug={"name": tn, "named_field": nf}))
+        vs = [Variant("V0", "named", [dbg_field("a", "T0", "M", 1, True), dbg_field("b", "T0", "k", 2, True), dbg_field("c", "T0", "m", 3, True)],
+                      attrs=["Debug(name = false)"], debug={"name": False, "named_field": None}),
+              Variant("V1", "tuple", [dbg_field(None, "T0", "M", 4, True), dbg_field(None, "T0", "n", 5, True)], attrs=["Debug(name = false, named_field = true)"],
+                      debug={"name": False, "named_field": True}),
+              Variant("V2", "unit", [], debug={"name": True, "named_field": None})]
+        out.append(Program(pid(), "enum", "E", vs, ["Debug"], generics=["T0"], inst={"T0": "u8"}, focus={"Debug"},
+                           note="nameless map-form enum variants with renamed + method fields", debug={"name": "default", "named_field": None}))
         for tn in ("default", True):
             vs = [Variant("V0", "tuple", [dbg_field(None, "T0", "n", 0, False), dbg_field(None, "T0", "m", 1, False)], debug={"name": True, "named_field": None}),
                   Variant("V1", "named", [dbg_field("a", "T0", "m", 2, True), dbg_field("b", "T0", "k", 3, True)], debug={"name": True, "named_field": None}),
@@ -1888,6 +1922,15 @@ def wide(prop):
             out.append(Program(pid(), "enum", "E", variants, [dbg_type_meta(tn, None, 0) or "Debug"], generics=generics, inst={g: "u8" for g in generics},
                                focus={"Debug"}, note="wide enum 6 variants name=%s" % tn, debug={"name": tn, "named_field": None}))
     if prop == "C09":
+        # exclusive-reference designated field: Target is still the referent
+        for shape in ("named", "tuple"):
+            for n, dm in ((1, 0), (3, 1)):
+                fs = []
+                for i in range(n):
+                    fs.append(Field(LONG[i] if shape == "named" else None, "&'static mut u8" if i == dm else "u8", attrs=(["Deref"] if (i == dm and n > 1) else []), deref={"mark": i == dm}))
+                P = Program(pid(), "struct", "S", [Variant(None, shape, fs)], ["Deref"], focus={"Deref"}, note="&mut designated field: struct %s n=%d deref@%d" % (shape, n, dm))
+                P.tags["no_verus"] = "&'static mut field: Kani on the concrete layout"
+                out.append(P)
         # PhantomData (and other non-target) fields declared before the designated field: positions are declaration positions
         PH = "core::marker::PhantomData<u16>"
         for shape in ("tuple", "named"):
@@ -1914,6 +1957,16 @@ def wide(prop):
                     out.append(Program(pid(), "struct", "S", [Variant(None, shape, fs)], ["Deref", "DerefMut"], generics=["T0"], inst={"T0": "u8"},
                                        focus={"Deref", "DerefMut"}, note="wide struct %s n=%d deref@%d deref_mut@%d" % (shape, n, dm, dmm)))
     if prop == "C10":
+        # a field type with an inherent `into` next to its From impl: the conversion must be the trait's
+        for shape in ("named", "tuple"):
+            fs = [Field(LONG[0] if shape == "named" else None, "crate::m::Adv", into={"marks": {}})]
+            out.append(into_program(pid(), "struct", [Variant(None, shape, fs)], ["u32"], "sole Adv field -> u32 (inherent into must not be used) %s" % shape, 0))
+            fs = [Field(LONG[0] if shape == "named" else None, "u8", into={"marks": {}}),
+                  Field(LONG[1] if shape == "named" else None, "crate::m::Adv", attrs=["Into(u32)"], into={"marks": {"u32": None}})]
+            out.append(into_program(pid(), "struct", [Variant(None, shape, fs)], ["u32"], "marked Adv field -> u32 %s" % shape, 0))
+        vs = [Variant("V0", "tuple", [Field(None, "crate::m::Adv", into={"marks": {}})]),
+              Variant("V1", "named", [Field("a", "u8", into={"marks": {}}), Field("b", "crate::m::Adv", attrs=["Into(u32)"], into={"marks": {"u32": None}})])]
+        out.append(into_program(pid(), "enum", vs, ["u32"], "enum with Adv fields -> u32", 0))
         # same-type fallback (no markers) with the target-typed field at a different index in each variant
         for kinds3 in (("tuple", "tuple"), ("named", "named", "tuple"), ("tuple", "named", "tuple")):
             for lays in ([["u8", "u32"], ["u32", "u8"]], [["u8", "u16", "u32"], ["u32", "u8", "u16"], ["u16", "u32", "u8"]], [["u32", "u8"], ["u8", "u8", "u32"], ["u8", "u32", "u16"]]):
